@@ -251,15 +251,50 @@ class Ctx:
         return os.path.join(self.lean_dir, ".lake", "build", "bin", exe)
 
     def lean_driver(self, exe, lines, timeout=600):
-        """Pipe lines through a compiled driver; returns the output lines (one per input line)."""
+        """Pipe lines through a compiled driver; returns the output lines (one per input line).
+
+        If the driver dies on some line (a panic in the model), the batch is bisected and the
+        offending lines answer "(crash)", so one bad case cannot take the whole stream down.
+        Returns None when the driver is not available at all."""
         path = self.driver_path(exe)
         if not os.path.exists(path):
             return None
-        p = subprocess.run([path], input="\n".join(lines) + "\n", capture_output=True, text=True, timeout=timeout)
-        if p.returncode != 0:
-            self.log("driver %s exited %d: %s" % (exe, p.returncode, p.stderr[-300:]))
-            return None
-        return p.stdout.splitlines()
+        if not lines:
+            return []
+
+        def run(batch):
+            try:
+                p = subprocess.run([path], input="\n".join(batch) + "\n", capture_output=True, text=True, timeout=timeout)
+            except subprocess.TimeoutExpired:
+                return None, "timeout"
+            out = p.stdout.splitlines()
+            if p.returncode != 0 or len(out) != len(batch):
+                return None, (p.stderr or "")[-300:]
+            return out, ""
+
+        out, err = run(lines)
+        if out is not None:
+            return out
+        self.log("driver %s failed on a batch of %d lines (%s); bisecting" % (exe, len(lines), err.strip()[:120]))
+        self.count("driver-crash-batches")
+        result = []
+        budget = [200]   # at most this many extra driver invocations
+
+        def solve(batch):
+            if budget[0] <= 0:
+                return ["(crash)"] * len(batch)
+            budget[0] -= 1
+            o, _ = run(batch)
+            if o is not None:
+                return o
+            if len(batch) == 1:
+                self.count("driver-crash-lines")
+                return ["(crash)"]
+            mid = len(batch) // 2
+            return solve(batch[:mid]) + solve(batch[mid:])
+        mid = len(lines) // 2
+        result = solve(lines[:mid]) + solve(lines[mid:])
+        return result
 
     # ---------------------------------------------------------------- reporting
     def broken(self, name, detail):
